@@ -184,6 +184,8 @@ def gen_map_case(rng):
             elif r < 0.82: toks += ['t', str(rng.randint(0, 3)), str(kt), str(k)]
             else: toks += ['c', str(rng.randint(0, 3))]
             continue
+        if rng.random() < 0.06:
+            toks += ['p', str(k)]; continue          # a build aborted inside Context::write
         if rng.random() < 0.12:
             # key type 6: values whose equality is coarser than identity (payloads of one decade are ==); reads and writes only
             v = rng.choice([0, 1, 2, 10, 11, 12])
@@ -219,7 +221,8 @@ def gen_map_cases(rng, tier):
               # object values: zero-sized values of different types, equal fields in different types; unit-struct keys of different types
               "w 4 0 200 t 0 4 0 w 4 0 300 c 0 r 4 0 w 4 1 5 t 1 4 1 w 4 1 105 c 1".split(),
               "w 5 0 7 r 5 1 w 5 1 8 r 5 0 r 5 1 t 0 5 0 x 5 1 c 0 r 5 0".split(),
-              "w 6 0 1 r 6 0 w 6 0 2 r 6 0 i 6 0 1 r 6 0 w 6 0 12 r 6 0".split()]         # values that are == but not identical: the last one stored is read       # the type-erased route, then the typed ones
+              "w 6 0 1 r 6 0 w 6 0 2 r 6 0 i 6 0 1 r 6 0 w 6 0 12 r 6 0".split(),
+              "w 1 0 5 w 2 0 6 s 3 11 4 p 0 r 1 0 r 2 0 g 3 11 p 1 r 1 0".split()]       # a build aborted inside Context::write: every state is still there         # values that are == but not identical: the last one stored is read       # the type-erased route, then the typed ones
     return corpus + [gen_map_case(rng) for _ in range(n)]
 
 
@@ -251,6 +254,9 @@ def map_oracle(toks, lines):
             if cur is None or cur[0] != s:
                 st[r] = (s, {})
             exp = 'd [%s]' % show(st[r][1])
+        elif op == 'p':
+            k = int(toks[i + 1]); i += 2
+            gmap(1); exp = 'u'          # aborted write on key type 1: the writer was created (state access like a read), nothing written
         elif op == 'r':
             kt, k = int(toks[i + 1]), int(toks[i + 2]); i += 3
             exp = 'r ' + o(gmap(kt).get(k))
@@ -375,7 +381,7 @@ def fs_state(rng):
     r = rng.random()
     if r < 0.12: return ['A']
     # modification times: two in the past and one far in the FUTURE (clock skew, unpacked archives): a stamp is a function of the file, not of the wall clock
-    if r < 0.65: return ['F', str(rng.choice(FS_SIZES)), str(rng.randint(0, 3)), str(rng.choice(FS_MTIMES))]
+    if r < 0.65: return [rng.choice(['F', 'F', 'F', 'L']), str(rng.choice(FS_SIZES)), str(rng.randint(0, 3)), str(rng.choice(FS_MTIMES))]
     d = rng.choice(FS_DIRS)
     return ['D', str(rng.choice(FS_MTIMES)), str(len(d))] + d
 
@@ -389,6 +395,7 @@ def gen_fs_cases(rng, tier):
         "F 9000 0 100 | F 9000 3 100".split(),              # same size and mtime, content differs beyond the 8 KiB buffer
         "F 8193 0 100 | F 8193 1 100".split(),
         "F 10 0 100 | F 10 0 200".split(),
+        "L 10 0 100 | L 10 0 100".split(), "L 10 0 100 | L 10 0 200".split(), "L 9000 0 100 | F 9000 0 100".split(), "A | L 0 0 100".split(),     # the path is a symbolic link to the file
         "F 10 0 100 | F 10 0 5000000100500".split(), "F 10 0 5000000100500 | F 10 0 100".split(),     # changed within the same second
         "F 10 0 5000000100250 | F 10 0 5000000100500".split(), "D 100 1 a | D 5000000100500 1 a".split(),
         "F 10 0 3000000000 | F 10 0 3000000000".split(),     # a modification time in the future, nothing changes
@@ -411,7 +418,7 @@ def gen_fs_cases(rng, tier):
 
 def fs_parse_state(toks, i):
     if toks[i] == 'A': return ('A',), i + 1
-    if toks[i] == 'F': return ('F', int(toks[i + 1]), int(toks[i + 2]), int(toks[i + 3])), i + 4
+    if toks[i] in ('F', 'L'): return ('F', int(toks[i + 1]), int(toks[i + 2]), int(toks[i + 3])), i + 4      # L: a symbolic link to such a file
     n = int(toks[i + 2])
     return ('D', int(toks[i + 1]), tuple(toks[i + 3:i + 3 + n])), i + 3 + n
 
